@@ -25,7 +25,9 @@ CONFIG = dict(
              "panic-free for every such matcher; Go's regexp is trusted; stream c03x runs ParseRemoteID against a hand-written "
              "matcher, ParseCircuitID is only crash-searched); DHCPv4 builders (C15); the DHCPv6 typed accessors other than those "
              "the observers above go through (ClientID, IANA/OneIANA, Addresses, DNS, DomainSearchList, NTPServers, BootFileURL, "
-             "BootFileParam, RelayMessage, InterfaceID, RemoteID, ClientLinkLayerAddress); architecture lists (iana.Archs); the "
+             "BootFileParam, RelayMessage, InterfaceID, RemoteID, ClientLinkLayerAddress); architecture lists as such (iana.Archs."
+             "FromBytes is part of both decoder models - DHCPv4 ClientArch accessor, DHCPv6 option 61 - but Archs.String and a "
+             "standalone entry point are not stated here); the "
              "interface-dependent helpers (GetLinkLocalAddr/GetGlobalAddr, RequestNetbootv4/v6, IfUp, ConfigureInterface: they "
              "talk to the kernel, not to a decoded value) - for all of those the assurance in C03 is the crash search of oracle "
              "c03 on the real code (testing, not proof). The search is mutation-based with behaviour-novelty feedback, not "
